@@ -120,6 +120,12 @@ def run_shard(ctx):
             check_case(ctx, {"gen": "mixed", "ddl": s["text"], "mode": mode, "entity_kinds": s["entity_kinds"], "kinds": s["kinds"]})
         if j == 0:
             ctx.sample({"ddl": s["text"][:800], "entity_kinds": s["entity_kinds"]})
+    from vf.gen import sources
+    for j in range(ctx.budget(200, 4000)):
+        src, text = sources.any_script(rng, kinds=["tables", "history", "dialect", "idents", "entities", "sequences", "commented", "types"])
+        for mode in (rng.sample(MODES, 2) if ctx.tier == "quick" else rng.sample(MODES, 5)):
+            check_case(ctx, {"gen": "pool:" + src, "ddl": text, "mode": mode, "entity_kinds": None})
+        ctx.obs["pool_scripts"] += 1
     corp = [c for c in load_corpus() if c["ok"]]
     n = ctx.budget(96, len(corp) + ctx.nshards)
     for j in range(n):
